@@ -978,6 +978,11 @@ pub struct VerifProbe {
 
 #[cfg(feature = "verif")]
 impl Runtime {
+    /// Constant-time part of the probe: is an error report pending?
+    pub fn verif_error_pending(&self) -> bool {
+        matches!(self.state, State::RuntimeError(_))
+    }
+
     pub fn verif_probe(&self) -> VerifProbe {
         fn kind(s: &State) -> &'static str {
             match s {
